@@ -377,11 +377,18 @@ func genReq(t *rapid.T, label string, intact *bool) Req {
 		if rapid.Bool().Draw(t, label+"-sel") {
 			b["select"] = rapid.SampledFrom([]any{[]any{"*"}, []any{"size", "price"}, []any{"meta.k", "missing"}, []any{"meta", "description"}, []any{"size.x"}, []any{"labels.1", "labels.x"}, []any{"size", "size.x"}, []any{"description.0.1"}, []any{"meta.k.z"}, []any{"", "."}}).Draw(t, label+"-selv")
 			if rapid.Bool().Draw(t, label+"-sort") {
-				b["sort"] = []any{map[string]any{"property": "size", "descending": rapid.Bool().Draw(t, label+"-desc")}}
+				// scalar, array, map, vector valued, nested and missing sort keys
+				sortProp := rapid.SampledFrom([]string{"size", "size", "price", "labels", "meta", "flat", "vector", "description", "meta.k", "missing", "category"}).Draw(t, label+"-sortp")
+				b["sort"] = []any{map[string]any{"property": sortProp, "descending": rapid.Bool().Draw(t, label+"-desc")}}
 			}
 		}
 		if rapid.Bool().Draw(t, label+"-off") {
 			b["offset"] = float64(rapid.IntRange(0, 5).Draw(t, label+"-offv"))
+			if rapid.IntRange(0, 5).Draw(t, label+"-offbig") == 0 {
+				// far beyond the end of any answer, up to the largest integer the field can hold (written
+				// as an exact JSON number)
+				b["offset"] = json.Number(rapid.SampledFrom([]string{"1000", "2147483647", "2147483648", "4294967296", "4611686018427387904", "9223372036854775707", "9223372036854775800", "9223372036854775807"}).Draw(t, label+"-offbigv"))
+			}
 		}
 		body = b
 		if col == "colv2" {
